@@ -71,6 +71,15 @@ CHECKS = {
         "errors and reporting of double errors; the learned rows are also compared with the shortened-cyclic (polynomial) definition.",
         "Exhaustive on both sides; membership is relative to the library's own encoder (a different but self-consistent code of the same distance would pass; the polynomial comparison reports that as drift).",
     ),
+    "C02": (
+        "DESIGN.md 5/C02",
+        "TLC enumeration of all 19 306 error patterns of weight <= 2 through a repair model (BPTC19696.tla) + the same patterns through the real decoder on two codewords each, judged by TLC; basis + random messages for linearity",
+        "TLC enumerates every error pattern of weight <= 2 over the 196 transmitted bits, runs the repair pass sequence (Hamming syndrome "
+        "decoders with parity-check columns learned through the public API, ETSI matrix layout) and compares with what the real "
+        "decoder returned for the same pattern on the zero codeword and on a random codeword; the 96 unit messages and random messages "
+        "check decode(encode(m)) = m with and without repair, encoder linearity and that rows/columns of codewords are Hamming words.",
+        "2^96 messages via basis + linearity + translation invariance observed on random codewords; R(3) handling of repair_if_necessary not judged.",
+    ),
 }
 
 NOT_YET = {}
